@@ -259,6 +259,32 @@ def run(chk):
   from rules.c07 import aggregate_order
   aggregate_order(chk, 'C20-R3')
 
+  # scalar UDFs: 0, 0.0 and '' are values, not absence
+  from rules.c07 import truthiness_in_function
+  sm = repo.by_name('sqlite3_logica')
+  n_scalar = 0
+  for low, (rn, kind, node) in sorted(reg.items()):
+    if kind != 'scalar' or len(node.args) < 3:
+      continue
+    impl = node.args[2]
+    fn_node, params, where = None, None, rfi
+    if isinstance(impl, ast.Lambda):
+      fn_node, params = impl, [p.arg for p in impl.args.args]
+    elif isinstance(impl, ast.Name) and impl.id in sm.funcs:
+      where = sm.funcs[impl.id]
+      fn_node, params = where.node, list(where.params)
+    if fn_node is None:
+      continue
+    n_scalar += 1
+    bad = truthiness_in_function(fn_node, params)
+    chk.ob('C20-R3', not bad, None,
+           'scalar UDF %s: no truthiness test on data values (0 and "" are values)' % low,
+           'the function decides by the truthiness of %s: 0, 0.0 and the empty '
+           'string are treated as absent values' % ', '.join('`%s`' % b[1] for b in bad[:3]),
+           fi=where, node=bad[0][0] if bad else None)
+  if n_scalar < 10:
+    raise AnalysisError('only %d scalar UDF implementations recognised' % n_scalar)
+
   chk.rule('C20-R4', 'SQLite function / infix templates format without error '
            'for every admissible argument count', min_instances=20)
   from rules.c09 import template_tables
